@@ -44,6 +44,7 @@ func (a AckInjected) String() string {
 
 func wireAcksRun() func() {
 	return func() {
+		defer logChoice()()
 		w := vnet.Reset()
 		var ep *vnet.Endpoint
 		expected := uint8(0)
